@@ -27,6 +27,8 @@ THEOREMS = [
 HARNESSES = [
     dict(name="cb", pkg="pkg/util/circuitbreaker", files=["harness/circuitbreaker/zz_verif_c08_test.go"],
          run="TestVerifC08", groups=["cb"], timeout=600),
+    dict(name="lin", pkg="pkg/util/circuitbreaker", files=["harness/circuitbreaker/zz_verif_c08_test.go"],
+         run="TestVerifC08Lin", groups=["lin"], timeout=900, share=0.02, thorough_only=True, race=True),
     dict(name="wrap", pkg="pkg/resilience", files=["harness/resilience/zz_verif_c08_wrap_test.go"],
          run="TestVerifC08Wrap", groups=["wrap"], timeout=600, share=0.25,
          extra_overlay={"pkg/util/circuitbreaker/zz_verif_c08_hook.go": "harness/circuitbreaker/zz_verif_c08_hook.go"}),
@@ -34,8 +36,8 @@ HARNESSES = [
          run="TestVerifC08Proxy", groups=["pool"], timeout=600, share=0.1,
          extra_overlay={"pkg/util/circuitbreaker/zz_verif_c08_hook.go": "harness/circuitbreaker/zz_verif_c08_hook.go"}),
 ]
-GROUPS = {"cb": "check_cb", "wrap": "check_wrap", "pool": "check_pool"}
-EXPLAIN = {"cb": "explain_cb", "wrap": "explain_wrap", "pool": "explain_pool"}
+GROUPS = {"cb": "check_cb", "wrap": "check_wrap", "pool": "check_pool", "lin": "check_lin"}
+EXPLAIN = {"cb": "explain_cb", "wrap": "explain_wrap", "pool": "explain_pool", "lin": "explain_lin"}
 CASES = {"quick": 600, "thorough": 20000}
 RULE = ("cases: random policies (thresholds 1..100, count/time window 1..12, minimum 0..12, permitted 0..6, wait/maxWait/slow durations) "
         "x histories of acquire / record(success|failure|slow, own, stale or foreign id) / clock advance (none, sub-second, second "
@@ -121,6 +123,12 @@ def encode(c):
             reqs.append(T(Z(now), _backend(rq)))
         return Rec(q_pol=_pol(i["pol"]), q_t0=Z(i["t0"]), q_reqs=L(reqs),
                    q_obs=L([T(Z(s["status"]), S(s["result"]), Z(s["contacted"])) for s in (o["reqs"] or [])]))
+    if g == "lin":
+        ops = []
+        for op in o["ops"] or []:
+            term = C("OAcq", Z(0)) if op["k"] == 0 else C("ORec", Z(0), Z(op["id"]), B(op["err"]), Z(0))
+            ops.append(Rec(l_call=Z(op["call"]), l_ret=Z(op["ret"]), l_op=term, l_flag=B(op["flag"] == 1), l_id=Z(op["id"])))
+        return Rec(n_pol=_pol(i["pol"]), n_t0=Z(0), n_ops=L(ops), n_final=T(Z(o["state"]), Z(o["id"])))
     raise ValueError(g)
 
 
@@ -153,6 +161,8 @@ def distribution(cases):
 
 
 def shrink_candidates(inp, grp):
+    if grp == "lin":
+        return
     key = {"cb": "ops", "wrap": "calls", "pool": "reqs"}[grp]
     ops = inp.get(key) or []
     n = len(ops)
